@@ -506,7 +506,8 @@ def oracle(prop, case, out):
             past = [e for e in expected[src] if e[0] <= t]
             exp = [1, int(past[-1][0] == t), past[-1][1], past[-1][0]] if past else [0, 0, 0, 0]
             if [valid, mod, val, lmt] != exp:
-                same = [w for w in st.get(next(p for (k, p, s, c) in pairs_of(nodes) if s == src), []) if w[0] == t]
+                prod = next((p for (k, p, s, c) in pairs_of(nodes) if s == src), None)
+                same = [w for w in st.get(prod, []) if w[0] == t]
                 kind = "fb_same_cycle" if (same and valid and val == same[0][1] and lmt == t) else "reader_view"
                 fails.append((kind, "node %d input %d (feedback %d) at %d sees %s, the delivered stream implies %s"
                               % (i, si, src, t, [valid, mod, val, lmt], exp)))
